@@ -106,6 +106,17 @@ PROPS = {
             "hand model Model/Alloc.lean + Model/Editors.lean of the four editors over one allocator, tied by the alloc correspondence with the OBSERVED set iteration order; Python set/dict membership by (hash, ==) with no collisions of distinct keys",
         ],
     },
+    "C13": {
+        "targets": ["RichchkModel.Props.C13"],
+        "harness": "effects_h",
+        "theorems_file": "RichchkModel/Props/C13.lean",
+        "namespace": "Richchk.Props.C13",
+        "trusted": [
+            "translator/tr_effects.py: the reading of Python function bodies into the alias IR (what allocates, what copies shallowly, what mutates; reaching-definition versioning of locals; inlining of private same-file helpers and of uniquely named small accessors; class-level memoisation caches and functools.cached_property excluded; calls leaving the package assumed not to mutate their arguments); frozen dataclasses are immutable records",
+            "hand model Model/Alias.lean (heap of container cells, flow-insensitive executions); soundness of the check is proved (Lemmas/AliasSound.lean)",
+            "deep-snapshot harness harness/effects_h.py wrapping every public method of the editor / io / transcoder layers (coverage = the driven histories)",
+        ],
+    },
     "C14": {
         "targets": ["RichchkModel.Props.C14"],
         "harness": "alloc_h",
@@ -273,7 +284,7 @@ def regenerate():
     return gaps, summary
 
 
-EXTRA_TRANSLATORS = ["tr_codecs", "tr_trig", "tr_consts", "tr_imports", "tr_fileapis"]  # each module exposes generate(gen_dir, build_dir, write_if_changed)
+EXTRA_TRANSLATORS = ["tr_codecs", "tr_trig", "tr_consts", "tr_imports", "tr_fileapis", "tr_effects"]  # each module exposes generate(gen_dir, build_dir, write_if_changed)
 
 
 def lake_build(targets, timeout=3000):
